@@ -496,7 +496,9 @@ fn check(prop: &str, tier: &str) -> i32 {
             let mut rep = Report::new(prop, tier, "model_checking");
             rep.cov("rule", json!("(a) every sequence of whole transactions, ephemeral/persistent savepoint create, drop, delete, restore followed by commit or abort (also with Durability::None), and reopen up to the depth bound; the model predicts every result from the public documentation (InvalidSavepoint / ImmediateDurabilityRequired rules, restored contents, invalidation of later savepoints, listings across reopen) and page accounting + drain must hold; (b) crash enumeration (engine of C01) over savepoint histories: persistent savepoints must be listed and restore to their captured tables after every crash state"));
             rep.cov("exhaustive", json!(true));
+            par::PHASE_LIMIT_PERCENT.store(55, std::sync::atomic::Ordering::Relaxed);
             seq_into(&mut rep, profiles::c07_profiles(quick));
+            par::PHASE_LIMIT_PERCENT.store(100, std::sync::atomic::Ordering::Relaxed);
             crash_into(
                 &mut rep,
                 profiles::c07_histories(quick),
@@ -516,7 +518,9 @@ fn check(prop: &str, tier: &str) -> i32 {
             let mut rep = Report::new(prop, tier, "model_checking");
             rep.cov("rule", json!("(a) every sequence up to the depth bound of fragmenting transactions (big/small inserts, deletes, growth, shrink, non-durable commits), reader/savepoint lifetimes and compact() from multi-region fragmented seeds: compact() must refuse exactly when a reader / ephemeral / persistent savepoint exists, otherwise leave the dump unchanged, not grow the file, stay within a backend-call budget, and repeated calls must reach `false`; (b) crash enumeration (engine of C01) at every storage operation inside compaction"));
             rep.cov("exhaustive", json!(true));
+            par::PHASE_LIMIT_PERCENT.store(55, std::sync::atomic::Ordering::Relaxed);
             seq_into(&mut rep, profiles::c13_profiles(quick));
+            par::PHASE_LIMIT_PERCENT.store(100, std::sync::atomic::Ordering::Relaxed);
             crash_into(
                 &mut rep,
                 profiles::c13_histories(quick),
